@@ -227,9 +227,10 @@ def req_strategy():
 def case_strategy():
     return st.fixed_dictionaries({
         "reqs": st.lists(req_strategy(), min_size=1, max_size=4),
-        "behs": st.lists(st.one_of(A.behaviour(faults=False), A.behaviour(faults=False), A.behaviour(faults=True)), min_size=1, max_size=4),
+        "behs": st.lists(st.one_of(A.behaviour(faults=False), A.behaviour(faults=False), A.behaviour(faults=True, exc_classes=("ValueError", "ValueError", "OSError", "ConnectionResetError"))), min_size=1, max_size=4),
         "send_caps": st.sampled_from([None, [1], [7, 3], [100, 0, 5], [50], [120, 1]]),
-        "adj": st.sampled_from([{}, {"outbuf_overflow": 8}, {"outbuf_overflow": 64, "send_bytes": 30}, {"outbuf_overflow": 150}, {"outbuf_overflow": 300}]),
+        "adj": st.sampled_from([{}, {"outbuf_overflow": 8}, {"outbuf_overflow": 64, "send_bytes": 30}, {"outbuf_overflow": 150}, {"outbuf_overflow": 300},
+                                {"log_socket_errors": False}, {"log_socket_errors": False, "outbuf_overflow": 64}]),
     })
 
 
@@ -250,12 +251,17 @@ def table_cases():
                                     beh["late_start"] = bool(len(chunks) % 2)
                                 if dcl is not None:
                                     beh["declared_cl"] = dcl
+                                case = {"reqs": [{"method": method, "version": version, "conn": conn},
+                                                 {"method": "GET", "version": "1.1", "conn": None}],
+                                        "behs": [beh, {"status": "200 OK", "mode": "list", "chunks": ["next"], "declared_cl": 4}]}
                                 if ra:
                                     beh["raise_at"] = ra
                                     beh["exc"] = "ValueError"
-                                yield {"reqs": [{"method": method, "version": version, "conn": conn},
-                                                {"method": "GET", "version": "1.1", "conn": None}],
-                                       "behs": [beh, {"status": "200 OK", "mode": "list", "chunks": ["next"], "declared_cl": 4}]}
+                                    if status == "200 OK" and mode in ("gen", "write"):
+                                        # the same failure as an OSError, with socket-error logging off
+                                        b2 = dict(beh, exc="ConnectionResetError")
+                                        yield dict(case, behs=[b2, case["behs"][1]], adj={"log_socket_errors": False})
+                                yield case
 
 
 def jobs(tier, seed):
